@@ -314,4 +314,9 @@ def evalBin (op : BinOp) (a1 a2 : Val) (same : Bool := false) : Res Val :=
   | .bior => opBior a1 (fun _ => .ok a2)
   | .bxor => opBxor a1 a2
 
+/-- The condition test of statement_if.cpp / statement_while.cpp:
+`if (val.isNull() || !*val.boolean())` ⇒ the false branch. -/
+def condTaken (v : Val) : Res Bool :=
+  if v.isNull then .ok false else do let b ← v.asBool; pure b
+
 end BlocV
